@@ -193,11 +193,11 @@ func ctrInv(s *seqCounters) bool {
 // C19: lock discipline of the ingest receiver
 
 //@ guarded_by ChannelMgr.mu: channels
-//@ guarded_by channel.mu: trDatas, trIDs
+//@ guarded_by channel.mu: trDatas, trIDs, mpd
 // The master* fields are written only by the channel goroutine (run -> receivedSegData ...), which may
 // therefore read them without the lock; upload handlers must read them under the lock.
 //@ guarded_by channel.mu: masterTimescale, masterSegDuration, masterTimeShift, masterSeqNrShift; owner: run, receivedSegData, isShifted, updateAndWriteMPD, deriveAndSetBitrates, deriveAndSetFrameRates, generateSegmentTimelineNrMPD
-//@ guarded_by Receiver.noLockExists: streams
+//@ guarded_by Receiver.mu: streams
 
 //@ lock_inv ChannelMgr.mu(cm): cm.channels != nil && (all k string :: haskey(cm.channels, k) ==> cm.channels[k] != nil)
 
